@@ -21,6 +21,7 @@ FIXES = [
     ("fixed-C11-default-string-not-escaped", "C11", "differs", "string default values"),
     ("fixed-C02-unprintable-exception-lands-in-data", "C02", "data_mismatch", "exception whose __str__ raises"),
     ("fixed-C11-schema-extension-directive-only", "C11", "type_differs", "directive-only schema extension"),
+    ("fixed-C11-interface-field-covariance", "C11", "cook_failed", "valid implementation field type"),
 ]
 
 
@@ -31,7 +32,13 @@ def sh(cmd, **kw):
 def main():
     log = sh(["git", "-C", "/repo", "log", "--format=%H %s"]).stdout.splitlines()
     out = {}
+    only = set(sys.argv[1:])
+    prev_path = os.path.join(VERIF, "findings", "regression_of_fixed_findings.json")
+    if only and os.path.exists(prev_path):
+        out = json.load(open(prev_path))
     for fid, check, clause, subject in FIXES:
+        if only and fid not in only:
+            continue
         commit = next((l.split()[0] for l in log if subject in l), None)
         if commit is None:
             print("%s: fix commit not found" % fid)
